@@ -494,6 +494,12 @@ def plan(tier):
         # quick: every pair (constraint on gate 2, constraint on gate 3); thorough: every pair
         if tier == 'thorough' or _cgate(menu[i]) == 2:
             t.append({'kind': 'cons2', 'ci': i, 'full': tier == 'thorough'})
+    for n in (4, 5, 8, 9, 10, 11, 12):
+        t.append({'kind': 'wide', 'n': n, 'r': 1})
+    for n in (4, 6, 9, 10):
+        t.append({'kind': 'wide', 'n': n, 'r': 2})
+    for i in range(len(menu)):
+        t.append({'kind': 'incr', 'ci': i})
     t.append({'kind': 'norm'})
     t.append({'kind': 'pool'})
     t.append({'kind': 'pymodel'})
@@ -520,7 +526,7 @@ def describe(tier):
         'answers (other phase / reversed variable order); every brute-force solution (first 30 per configuration in the quick tier, 400 in the thorough tier) turned into a CNF '
         'model, checked against get_cnf() and fed back through find_circuit (must decode to itself); for the configurations '
         'marked enum: every model of the CNF distinct on the decoded variables is enumerated, decoded and looked up in the '
-        'solution set, and counted; NoSolutionError iff the solution set is empty. Time-limit path through a synchronous fake '
+        'solution set, and counted; NoSolutionError iff the solution set is empty. wide: 4..12 inputs with a few care rows (the CNF stays small), r<=2; incremental: search, add one constraint, search again on the same finder. Time-limit path through a synchronous fake '
         'pool (returns / times out) and the real fork-based pool for a few configurations. distinct = distinct configuration '
         'outcome classes.',
         'bounds': {
@@ -608,6 +614,19 @@ def run_task(task, acc):
         for f in range(0, 256):
             mr = (''.join('1' if (f >> j) & 1 else '0' for j in range(8)),)
             _cons_config(acc, 3, 2, 'XAIG', mr, [c])
+    elif k == 'wide':
+        for b in (('AIG', 'XAIG', 'FULL') if task['r'] == 1 else ('XAIG',)):
+            for mr in wide_models(task['n']):
+                check_config(acc, task['n'], task['r'], b, mr, [], enum_models=False)
+        acc.sample({'n': task['n'], 'r': task['r'], 'basis': 'XAIG', 'model': ['(g(x0, x_last) on rows 0..23 and the last 4 rows, * elsewhere)'], 'constraints': []})
+    elif k == 'incr':
+        con = constraint_menu(2, 2)[task['ci']]
+        for b in ('XAIG', 'FULL'):
+            for mr in all_models(2, 1):
+                check_incremental(acc, 2, 2, b, mr, con)
+        for mr in all_models(2, 1):
+            if con[1] == 2 if con[0] == 'fix' else con[2] == 2:
+                check_incremental(acc, 2, 1, 'XAIG', mr, con)
     elif k == 'norm':
         for b in ('AIG', 'XAIG', 'FULL', 'and+lnot'):
             for r in (1, 2):
@@ -649,6 +668,66 @@ def run_task(task, acc):
                 check_config(acc, 2, r, 'XAIG', mr, [], py_model=True)
 
 
+def check_incremental(acc, n, r, bname, model_rows, con):
+    """One finder object used twice: search, add a constraint, search again. The second answer must
+    obey the constraint (and report no solution iff none exists with it)."""
+    from cirbo.synthesis.exception import FixGateError, FixGateOrderError, ForbidWireOrderError, GateIsAbsentError, NoSolutionError
+
+    case = {'n': n, 'r': r, 'basis': bname, 'model': list(model_rows), 'scenario': 'find_circuit, then constraint, then find_circuit', 'constraints': [list(con)]}
+    feats = {'scenario': 'incremental', 'constraint_kinds': [_ckind(con)]}
+    acc.states += 1
+    acc.traces += 1
+    acc.transitions += 2
+    try:
+        f = make_finder(n, r, bname, model_rows, [])
+        try:
+            f.find_circuit()
+        except NoSolutionError:
+            pass
+        try:
+            if con[0] == 'fix':
+                from cirbo.core import gate as G
+
+                f.fix_gate(con[1], first_predecessor=con[2], second_predecessor=con[3], gate_type=None if con[4] is None else getattr(G, con[4]))
+            else:
+                f.forbid_wire(con[1], con[2])
+        except (FixGateError, FixGateOrderError, ForbidWireOrderError, GateIsAbsentError):
+            return
+        sols = solutions(n, r, bname, tuple(model_rows), [con])
+        try:
+            c2 = f.find_circuit()
+        except NoSolutionError:
+            if sols:
+                acc.violation('find_circuit/completeness', case, f'second search: no solution, brute force finds {len(sols)}', feats)
+            return
+    except Exception as e:  # noqa: BLE001
+        acc.violation(f'find_circuit/raises-{type(e).__name__}', case, repr(e), feats)
+        return
+    if not sols:
+        acc.violation('find_circuit/solution-although-none-exists', case, 'second search after adding the constraint', feats)
+        return
+    got = check_returned(acc, case, feats, c2, n, r, bname, model_rows, [con], False)
+    sp = space_of(n, r, tuple(basis_ops(bname)))
+    if got is not None and got not in {(sp[i][0], pl) for i, pl in sols}:
+        acc.violation('find_circuit/returned-circuit-not-in-brute-force-set', case, f'{got}', feats)
+
+
+def wide_models(n):
+    """Many inputs, few care rows (the CNF stays small): target g(x0, x_{n-1}) on the first 24 rows and the
+    last 4 rows, don't-care elsewhere."""
+    rows = 1 << n
+    care = sorted(set(list(range(min(24, rows))) + list(range(max(0, rows - 4), rows))))
+    out = []
+    for g in ('AND', 'NOR', 'XOR', 'GT', 'LEQ', 'NAND'):
+        s_ = ['*'] * rows
+        for j in care:
+            a = (j >> (n - 1)) & 1
+            b = j & 1
+            s_[j] = '1' if refmodel.gate_bool(g, (bool(a), bool(b))) else '0'
+        out.append((''.join(s_),))
+    return out
+
+
 def _cons_config(acc, n, r, b, mr, cons, normalized=False, enum=False):
     from cirbo.synthesis.exception import FixGateError, FixGateOrderError, ForbidWireOrderError, GateIsAbsentError
 
@@ -684,6 +763,8 @@ def replay(case, acc):
     if case.get('pool') == 'fake-timeout':
         return _timeout_config(acc, case['n'], case['r'], case['basis'], tuple(case['model']))
     cons = [tuple(c) for c in case.get('constraints', [])]
+    if case.get('scenario'):
+        return check_incremental(acc, case['n'], case['r'], case['basis'], tuple(case['model']), cons[0])
     pm = case.get('pool')
     if pm == 'fake':
         import cirbo.synthesis.circuit_search as cs
